@@ -497,6 +497,30 @@ func transportRoundTrip(g *gen.G, n int, big bool) int {
 			violate("InstallSnapshot changed in transit (payload %d bytes)", len(sq.Bytes))
 		}
 	}
+	// requests above the transport's message limit (4 MiB by default): the call may fail, but a call that reports
+	// success must have delivered exactly the entries it was given - never a silently shortened request
+	for _, sizes := range [][]int{{3 << 20, 3 << 20}, {1 << 20, 1 << 20, 1 << 20, 1 << 20, 1 << 20}, {5 << 20}, {100, 4 << 20, 100}} {
+		var es []*raft.LogEntry
+		for k, sz := range sizes {
+			buf := make([]byte, sz)
+			g.R.Read(buf)
+			es = append(es, raft.NewLogEntry(uint64(k+1), 7, buf, raft.OperationEntry))
+		}
+		aq := raft.AppendEntriesRequest{LeaderID: "big", Term: 7, LeaderCommit: 1, PrevLogIndex: 0, PrevLogTerm: 0, Entries: es}
+		respAE = raft.AppendEntriesResponse{Term: 7, Index: 0, Success: true}
+		gotAE = raft.AppendEntriesRequest{}
+		_, err := ta.SendAppendEntries(addrB, aq)
+		sent++
+		if err == nil {
+			ok := len(gotAE.Entries) == len(es)
+			for k := 0; ok && k < len(es); k++ {
+				ok = gotAE.Entries[k].Index == es[k].Index && bytes.Equal(gotAE.Entries[k].Data, es[k].Data)
+			}
+			if !ok {
+				violate("AppendEntries request of %d entries (%v bytes) reported success but %d entries arrived", len(es), sizes, len(gotAE.Entries))
+			}
+		}
+	}
 	_ = big
 	return sent
 }
